@@ -229,6 +229,7 @@ func codecMain(args []string) error {
 	}
 	rng := rand.New(rand.NewSource(*seed + int64(*shard)*7919))
 	n := 0
+	bigCuts := false // also cut the next (big) block, at sampled positions
 	emit := func(cs []bcol, rows, rev int) error {
 		var (
 			canon []byte
@@ -254,10 +255,25 @@ func codecMain(args []string) error {
 			"encodeErr": "", "typed": decodeTyped(cs, canon, rev, nil), "reused": decodeTyped(cs, canon, rev, rng),
 			"auto": decodeAuto(cs, canon, rev, canon)})
 		n++
-		if *prefix && len(canon) <= 20000 {
+		if *prefix && (len(canon) <= 20000 || bigCuts) {
 			// every proper prefix, plain and inside a compressed frame, typed and inferred: the cuts the library accepted
+			// (a block beyond 20000 bytes is cut only where asked for: at its ends, around every MiB, and at a stride)
 			acceptedTyped, acceptedAuto, acceptedFramed := []int{}, []int{}, []int{}
+			cutHere := func(k int) bool {
+				if len(canon) <= 20000 || k < 96 || k >= len(canon)-96 {
+					return true
+				}
+				if m := k % (1 << 20); m <= 2 || m >= 1<<20-2 {
+					return true
+				}
+				return k%(len(canon)/97+1) == 0
+			}
+			ncuts := 0
 			for k := 0; k < len(canon); k++ {
+				if !cutHere(k) {
+					continue
+				}
+				ncuts++
 				if decodeTyped(cs, canon[:k], rev, nil)["err"] == "" {
 					acceptedTyped = append(acceptedTyped, k)
 				}
@@ -288,7 +304,7 @@ func codecMain(args []string) error {
 				asts = append(asts, c.kind.AST())
 			}
 			tw.Emit(map[string]any{"ev": "Prefix", "rev": rev, "rows": rows, "asts": asts, "tname": cs[0].kind.Name(), "bytes": colgen.Ints(canon),
-				"cuts": len(canon), "acceptedTyped": acceptedTyped, "acceptedAuto": acceptedAuto, "framedCuts": framedLen,
+				"cuts": ncuts, "acceptedTyped": acceptedTyped, "acceptedAuto": acceptedAuto, "framedCuts": framedLen,
 				"acceptedFramed": acceptedFramed, "probes": probes})
 			n++
 		}
@@ -310,6 +326,15 @@ func codecMain(args []string) error {
 			if err := emit([]bcol{{kind: colgen.Array(b.Str), name: "as", vals: []any{svals, []any{}, svals[:3]}}}, 3, rs[0]); err != nil {
 				return err
 			}
+		}
+		if *shard == 1%*nshard {
+			// a string beyond 1 MiB (long values are read in steps) as the last thing of the block
+			bigCuts = true
+			big := mkStr(1<<20+5000, 'B')
+			if err := emit([]bcol{{kind: b.Str, name: "s", vals: []any{mkStr(3, 'x'), big}}}, 2, rs[0]); err != nil {
+				return err
+			}
+			bigCuts = false
 		}
 		u32 := func(i int) any { return colgen.Ints([]byte{byte(i), byte(i >> 8), byte(i >> 16), byte(i >> 24)}) }
 		for di, d := range []int{254, 255, 256, 257, 65534, 65535, 65536, 65537} {
